@@ -130,6 +130,11 @@ IdxVal(e, C) ==
         ELSE IF Sgn(e, C) /\ Msb(b) = 1 THEN -1
         ELSE IF ~Small(b) THEN 2^30 ELSE NatOf(b)
 
+\* 11.4.10: the right operand of a shift is always treated as an unsigned number
+UVal(e, C) ==
+    LET b == EvalSelf(e, C)
+    IN  IF HasX(b) THEN -1 ELSE IF ~Small(b) THEN 2^30 ELSE NatOf(b)
+
 BadRef == [v |-> "", el |-> 0, ud |-> <<>>, lo |-> 0, pd |-> <<>>, base |-> "logic", bad |-> TRUE, ill |-> TRUE, sg |-> FALSE]
 \* bad = index out of range at run time; ill = the expression is ill-typed (select on a scalar, unknown member)
 Ref(e, C) ==
@@ -209,6 +214,7 @@ Sgn(e, C) ==
       [] e.k = "cond" -> Sgn(e.a, C) /\ Sgn(e.b, C)
 
 Bit(p) == IF p THEN <<1>> ELSE <<0>>
+True(b) == \E i \in 1..Len(b) : b[i] = 1       \* 12.4: a condition that is zero, x or z is false
 
 Eval(e, w, sg, C) ==
     CASE e.k = "num"  -> Resize(SubSeq(e.b, 1, IF e.w = 0 THEN 32 ELSE e.w), w, sg)
@@ -225,18 +231,23 @@ Eval(e, w, sg, C) ==
                 v  == Eval(e.e, wi, Sgn(e.e, C), C)
             IN  Resize(SubSeq(v, 1, e.w), w, sg)
       [] e.k = "un"   ->
-            (CASE e.op = "~"  -> BNot(Eval(e.e, w, sg, C))
-               [] e.op = "-"  -> Neg(Eval(e.e, w, sg, C))
+            (CASE e.op \in {"~", "-"} ->
+                    LET a == Eval(e.e, w, sg, C)
+                    IN  IF HasX(a) THEN X(w) ELSE IF e.op = "~" THEN BNot(a) ELSE Neg(a)
                [] e.op = "+"  -> Eval(e.e, w, sg, C)
-               [] e.op = "r&" -> Resize(<<RedAnd(EvalSelf(e.e, C))>>, w, FALSE)
-               [] e.op = "r|" -> Resize(<<RedOr(EvalSelf(e.e, C))>>, w, FALSE)
-               [] e.op = "r^" -> Resize(<<RedXor(EvalSelf(e.e, C))>>, w, FALSE)
-               [] e.op = "!"  -> Resize(Bit(~NonZero(EvalSelf(e.e, C))), w, FALSE))
+               [] e.op \in {"r&", "r|", "r^", "!"} ->
+                    LET a == EvalSelf(e.e, C)
+                    IN  IF HasX(a) THEN X(w)
+                        ELSE Resize(<< CASE e.op = "r&" -> RedAnd(a)
+                                         [] e.op = "r|" -> RedOr(a)
+                                         [] e.op = "r^" -> RedXor(a)
+                                         [] e.op = "!"  -> IF NonZero(a) THEN 0 ELSE 1 >>, w, FALSE))
       [] e.k = "bin"  ->
             IF e.op \in Arith THEN
                 LET a == Eval(e.a, w, sg, C)
                     b == Eval(e.b, w, sg, C)
-                IN  (CASE e.op = "+" -> Add(a, b)
+                IN  IF HasX(a) \/ HasX(b) THEN X(w) ELSE
+                    (CASE e.op = "+" -> Add(a, b)
                        [] e.op = "-" -> Sub(a, b)
                        [] e.op = "*" -> Mul(a, b)
                        [] e.op = "/" -> Div(a, b, sg)
@@ -246,8 +257,8 @@ Eval(e, w, sg, C) ==
                        [] e.op = "^" -> BXor(a, b))
             ELSE IF e.op \in {"<<", ">>"} THEN
                 LET a == Eval(e.a, w, sg, C)
-                    n == IdxVal(e.b, C)
-                IN  IF n < 0 THEN X(w)             \* negative (signed) shift amount: not modelled
+                    n == UVal(e.b, C)
+                IN  IF n < 0 \/ HasX(a) THEN X(w)   \* unknown shift amount / operand
                     ELSE IF e.op = "<<" THEN Shl(a, n) ELSE Shr(a, n)
             ELSE IF e.op = "**" THEN
                 IF sg \/ Sgn(e.b, C) THEN X(w) ELSE Pow(Eval(e.a, w, sg, C), EvalSelf(e.b, C))
@@ -269,7 +280,8 @@ Eval(e, w, sg, C) ==
                     b == NonZero(EvalSelf(e.b, C))
                 IN  Resize(Bit(IF e.op = "&&" THEN a /\ b ELSE a \/ b), w, FALSE)
       [] e.k = "cond" ->
-            IF NonZero(EvalSelf(e.c, C)) THEN Eval(e.a, w, sg, C) ELSE Eval(e.b, w, sg, C)
+            LET c == EvalSelf(e.c, C)
+            IN  IF HasX(c) THEN X(w) ELSE IF NonZero(c) THEN Eval(e.a, w, sg, C) ELSE Eval(e.b, w, sg, C)
 
 \* value an lw-bit target receives from `rhs` (10.7: evaluated at max(lw, L(rhs)), then truncated)
 AssignVal(lw, rhs, C) ==
@@ -301,7 +313,7 @@ Assign(l, r, nonblocking, C) ==
 Exec(s, C) ==
     IF C.err # "ok" THEN C ELSE
     CASE s.k = "blk" -> FoldLeft(LAMBDA c, x : Exec(x, c), C, s.ss)
-      [] s.k = "if"  -> IF NonZero(EvalSelf(s.c, C)) THEN Exec(s.t, C) ELSE Exec(s.e, C)
+      [] s.k = "if"  -> IF True(EvalSelf(s.c, C)) THEN Exec(s.t, C) ELSE Exec(s.e, C)
       [] s.k = "ba"  -> Assign(s.l, s.r, FALSE, C)
       [] s.k = "nba" -> Assign(s.l, s.r, TRUE, C)
       [] s.k = "for" ->
@@ -314,10 +326,21 @@ Exec(s, C) ==
 Loop(s, C, n) ==
     IF C.err # "ok" THEN C
     ELSE IF n > MaxIter THEN [C EXCEPT !.err = "loop-bound"]
-    ELSE IF NonZero(EvalSelf(s.cond, C)) THEN
-        LET C1 == Exec(s.body, C)
+    ELSE IF True(EvalSelf(s.cond, C)) THEN
+        LET C1  == Exec(s.body, C)
+            v   == [k |-> "id", n |-> s.v]
+            C2  == Assign(v, s.step, FALSE, C1)
+            old == Read(v, C1)
+            new == Read(v, C2)
+            \* the 32-bit loop variable passed zero / 2^32 and the condition still holds: the loop
+            \* does not terminate within 2^31 iterations (an accepted PyMTL range never does that)
+            wrap == /\ s.step.k = "bin" /\ ~HasX(old) /\ ~HasX(new)
+                    /\ \/ s.step.op = "-" /\ ULt(old, new)
+                       \/ s.step.op = "+" /\ ULt(new, old)
         IN  IF C1.err # "ok" THEN C1
-            ELSE Loop(s, Assign([k |-> "id", n |-> s.v], s.step, FALSE, C1), n + 1)
+            ELSE IF C2.err # "ok" THEN C2
+            ELSE IF wrap /\ True(EvalSelf(s.cond, C2)) THEN [C2 EXCEPT !.err = "loop-wraps"]
+            ELSE Loop(s, C2, n + 1)
     ELSE C
 
 (***************************************************************************)
@@ -439,27 +462,4 @@ Drivers(d) ==
          nmulti |-> Cardinality(bad),
          undriven |-> Cardinality({k \in 1..Len(d.varorder) : tab[d.varorder[k]] = <<>>})]
 
-(***************************************************************************)
-(* FlatMap (C12): the leaves of a port of struct type in the order and     *)
-(* with the names of the flattened form; first field most significant,     *)
-(* element 0 of a packed array least significant.                          *)
-(*   td = [k |-> "bits", w] | [k |-> "struct", fs |-> Seq([n, ty])]        *)
-(*      | [k |-> "arr", n, ty]                                             *)
-(***************************************************************************)
-RECURSIVE TdW(_)
-TdW(td) == CASE td.k = "bits"   -> td.w
-             [] td.k = "struct" -> FoldLeft(LAMBDA a, f : a + TdW(f.ty), 0, td.fs)
-             [] td.k = "arr"    -> td.n * TdW(td.ty)
-RECURSIVE Leaves(_, _, _)
-Leaves(td, name, lo) ==
-    CASE td.k = "bits"   -> << [n |-> name, lo |-> lo, w |-> td.w] >>
-      [] td.k = "struct" ->
-            \* walk the members from the last (least significant) to the first
-            FoldLeft(LAMBDA acc, k :
-                        LET f == td.fs[Len(td.fs) + 1 - k]
-                        IN  <<Leaves(f.ty, name \o "__" \o f.n, acc[2]) \o acc[1], acc[2] + TdW(f.ty)>>,
-                     << <<>>, lo >>, Idx(Len(td.fs)))[1]
-      [] td.k = "arr"    ->
-            FoldLeft(LAMBDA acc, i : acc \o Leaves(td.ty, name \o "__" \o ToString(i - 1), lo + (i - 1) * TdW(td.ty)),
-                     <<>>, Idx(td.n))
 =============================================================================
